@@ -144,7 +144,16 @@ class dotdict_base( object ):
         mine, rest 		= key, None
         while '..' in mine:
             front, back		= mine.split( '..', 1 )
-            trunc		= front[:max(0,front.rfind('.'))]
+            # back-track over the last '.' of front that is not inside an [...] index expression
+            last,depth		= -1,0
+            for i,c in enumerate( front ):
+                if c == '[':
+                    depth      += 1
+                elif c == ']':
+                    depth      -= 1
+                elif c == '.' and depth == 0:
+                    last	= i
+            trunc		= front[:max(0,last)]
             mine		= trunc + ( '.' if ( trunc and back ) else '' ) + back
             #logging.info( '_resolve reduced "%s..%s" to "%s"' % ( front, back, mine ))
         # Find leading non-. term
